@@ -1,0 +1,56 @@
+//go:build verif
+
+package server
+
+import "net"
+
+// verification hooks (build tag `verif`): a seam replacing the fork/exec of a worker by a
+// harness callback, and exported wrappers to drive the master's bookkeeping loop.
+
+// VerifSpawnFunc - replacement for the fork/exec part of spawnProcess
+type VerifSpawnFunc func(zns *ZnPMServer) error
+
+// verifSpawn - when non-nil, spawnProcess delegates to it
+var verifSpawn VerifSpawnFunc
+
+// VerifSetSpawn - install (or with nil, remove) the spawn replacement
+func VerifSetSpawn(fn VerifSpawnFunc) { verifSpawn = fn }
+
+// VerifMaintain - run the master's bookkeeping loop (never returns)
+func (zns *ZnPMServer) VerifMaintain(cfg ZnPMServerConfig) {
+	zns.maintainChildState(cfg, (*net.TCPListener)(nil), (*pipe)(nil))
+}
+
+// VerifSpawnInitial - what StartMaster does after starting the loop
+func (zns *ZnPMServer) VerifSpawnInitial(cfg ZnPMServerConfig) error {
+	for i := 0; i < cfg.InitProcs; i++ {
+		if err := zns.spawnProcess(cfg, nil, nil); err != nil {
+			return err
+		}
+	}
+	return nil
+}
+
+// VerifRegister - the registration step of spawnProcess (addChan <- state)
+func (zns *ZnPMServer) VerifRegister(pid int) {
+	zns.addChan <- workerState{pid: pid, state: WORKER_STATE_IDLE, cmd: nil}
+}
+
+// VerifReport - a state report as readNamedPipe delivers it
+func (zns *ZnPMServer) VerifReport(pid int, state uint8) {
+	zns.updateChan <- workerState{pid: pid, state: state, cmd: nil}
+}
+
+// VerifExit - the exit notification of spawnProcess's waiter goroutine
+func (zns *ZnPMServer) VerifExit(pid int) {
+	zns.delChan <- pid
+}
+
+// VerifSnapshot - bookkeeping counters (only meaningful while the loop is blocked)
+func (zns *ZnPMServer) VerifSnapshot() (refCount int, states map[int]uint8) {
+	states = map[int]uint8{}
+	for pid, w := range zns.childs {
+		states[pid] = w.state
+	}
+	return zns.refCount, states
+}
